@@ -424,6 +424,26 @@ def r4(ctx, r):
                                                                                                    b.edge_label(si) is True and show(b.cond).startswith("!")))
     r.expect(bool(tds) and w is None, dt, None, "destructor skips teardown", "~Transport can return without running the teardown handshake although an engine exists", witness=witness_str(dt, w),
              okdesc="~Transport: every path with an engine runs a teardown handshake")
+    # a counted operation stays counted for as long as it can still call into the engine / Impl: no engine call after its guard died
+    n_g = 0
+    for f in fb.in_file(TFILE):
+        if not f.ok or not f.name.startswith(TR + "::"):
+            continue
+        gd = [e for e in f.elems() if e.kind == "dtor" and e.raw.get("t", "").endswith(("ParkGuard", "FlushGuard"))]
+        if not gd:
+            continue
+        ecalls = [e for e in f.stmts() if e.node.get("k") == "mcall" and "EngineBase" in e.node.get("callee", "") and any(x.get("k") == "member" and x["n"].endswith("::engine") for x in walk(e.node.get("obj") or {}))]
+        for c in ecalls:
+            # only calls made after the operation parked (reachable from a guard's construction)
+            for g in gd:
+                n_g += 1
+                w = search(f, g, lambda x, c=c: x is c, eh=False)
+                r.instance()
+                r.expect(w is None, f, c, "engine call after the count was released", "%s calls %s after its %s was destroyed (%s): the caller is inside the engine but no longer counted by the teardown "
+                         "handshake — a concurrent ~Transport can finish and free the engine and Impl under that call" % (short(f.name), show(c.node)[:40], last(g.raw.get("t", "guard")), witness_str(f, w)),
+                         okdesc="%s: engine calls only while counted" % short(f.name))
+    if n_g < 1:
+        raise AnalysisBroken("no (guard, engine call) pair found in the counted Transport operations")
 
 
 # ------------------------------------------------------------------ R5
